@@ -221,6 +221,8 @@ pub struct Options {
     pub runs_override: Option<u64>,
     pub no_respawn: bool,
     pub exec_scenario: Option<String>,
+    /// debugging aid: print the scenarios of the first N runs (with their outcome hash) and stop
+    pub dump: Option<u64>,
 }
 
 pub fn parse_options(args: &[String]) -> Result<(String, Options), String> {
@@ -239,6 +241,7 @@ pub fn parse_options(args: &[String]) -> Result<(String, Options), String> {
         runs_override: std::env::var("VERIF_RUNS").ok().and_then(|s| s.parse().ok()),
         no_respawn: false,
         exec_scenario: None,
+        dump: None,
     };
     let mut i = 1;
     while i < args.len() {
@@ -264,6 +267,10 @@ pub fn parse_options(args: &[String]) -> Result<(String, Options), String> {
                 o.runs_override = Some(args.get(i).and_then(|s| s.parse().ok()).ok_or("bad runs")?);
             }
             "--no-respawn" => o.no_respawn = true,
+            "--dump" => {
+                i += 1;
+                o.dump = Some(args.get(i).and_then(|s| s.parse().ok()).ok_or("bad dump count")?);
+            }
             "--exec-scenario" => {
                 i += 1;
                 o.exec_scenario = Some(args.get(i).cloned().ok_or("missing scenario path")?);
@@ -455,7 +462,7 @@ fn exec_dispatch(check: &dyn Check, verif_dir: &str, scenario: &J) -> Result<Run
     }
     std::thread::scope(|s| {
         let h = std::thread::Builder::new()
-            .stack_size(16 << 20)
+            .stack_size(4 << 20)
             .spawn_scoped(s, || check.execute(scenario))
             .map_err(|e| format!("cannot spawn scenario thread: {}", e))?;
         match h.join() {
@@ -493,6 +500,18 @@ pub fn run_check(check: &dyn Check, opts: &Options) -> i32 {
         return 0;
     }
     let id = check.id();
+    if let Some(n) = opts.dump {
+        for i in 0..n {
+            let mut rng = Rng::new(derive_seed(opts.seed, id, i));
+            let sc = check.generate(&mut rng, opts.tier, i);
+            let out = exec_dispatch(check, &opts.verif_dir, &sc);
+            match out {
+                Ok(o) => println!("RUN {} hash={} violations={:?} scenario={}", i, hash_hex(o.hash), o.violations.iter().map(|v| v.class.clone()).collect::<Vec<_>>(), sc.to_string()),
+                Err(e) => println!("RUN {} error={} scenario={}", i, e, sc.to_string()),
+            }
+        }
+        return 0;
+    }
     let t0 = Instant::now();
     let n_runs = opts.runs_override.unwrap_or_else(|| check.runs(opts.tier));
     let budget = check.budget_s(opts.tier);
